@@ -95,8 +95,35 @@ Definition run_req (orc : oracle) (s : sexp) : sexp :=
   | _ => bad_input
   end.
 
+(* ---- downstream stages on the projection (Model/Downstream.v):
+     (4 rows batch n_chunks policy slots)   policy = () | (k);  slots = ((plate id, score key) ...)
+        -> ( (result ((plate id (row position ...)) ...)) per chunk index 0 .. n_chunks-1     what score_chunk hands the scorer
+             result (option plate id) )                                                  select_next_plate on a holder with these slots ---- *)
+From Batchie Require Import Model.Downstream.
+From Batchie Require Model.Scores Model.Policy.
+
+Definition run_req_down (orc : oracle) (s : sexp) : sexp :=
+  match s with
+  | SL [SZ 4; rows; batch; SZ n; policy; slots] =>
+      match as_listof as_wrow rows, as_Zs batch, as_option as_Z policy, as_listof (as_pair as_Z as_Z) slots with
+      | Some w, Some batch, Some policy, Some slots =>
+          let v := downstream_input (map fst w) in
+          let scr := dn_scores_screen v in
+          SL [ of_list (fun k => of_result (of_list (fun p => SL [SZ (fst p); of_list (fun ir => of_nat (fst ir)) (snd p)]))
+                                   (Scores.score_chunk scr batch n (Z.of_nat k)))
+                       (seq 0 (Z.to_nat n));
+               of_result (of_option SZ)
+                 (match policy with
+                  | None => Scores.select_next None scr batch (Scores.mkholder (Z.of_nat (length slots)) slots (length slots))
+                  | Some k => dor r <- Policy.select_next k (dn_policy_plates v) slots batch; Ok (snd r)
+                  end) ]
+      | _, _, _, _ => bad_input
+      end
+  | _ => run_req orc s
+  end.
+
 Definition run_c04 (orc : oracle) (s : sexp) : sexp :=
   match s with
-  | SL reqs => SL (map (run_req orc) reqs)
+  | SL reqs => SL (map (run_req_down orc) reqs)
   | _ => bad_input
   end.
